@@ -13,6 +13,7 @@ import Driver.Ops.Strict
 import Driver.Ops.Ts
 import Driver.Ops.Cfg
 import Driver.Ops.Group
+import Driver.Ops.Fdef
 /-! Line-protocol driver of the model: one JSON case per input line, one JSON answer per line.
     To add an op: write `Driver/Ops/<Name>.lean`, import it here, add one line to `opTable`
     (or to `outputTable` for a new output kind of op `run`). -/
@@ -50,7 +51,9 @@ def opTable : List (String × (Json → R Json)) := [
   ("strict", Ops.opStrict outputTable),
   ("ts", Ops.opTs),
   ("tsfmt", Ops.opTsfmt),
-  ("cfg", Ops.opCfg)
+  ("cfg", Ops.opCfg),
+  ("fdef", Ops.opFdef),
+  ("b64", Ops.opB64)
 ]
 
 def dispatch (j : Json) : R Json := do
